@@ -38,7 +38,8 @@ class Cmp:
         self.n = 0
 
     def bad(self, kind, msg, detail=None):
-        self.rep.add(f"{self.prop}|rust|{self.side}|{kind}", msg, self.where, detail)
+        lang = {"ser": "python|serialize", "cxxser": "cxx|serialize"}.get(self.side, f"rust|{self.side}")
+        self.rep.add(f"{self.prop}|{lang}|{kind}", msg, self.where, detail)
 
     def order_ok(self, n, order):
         if n == 1:
@@ -60,6 +61,14 @@ class Cmp:
         if got[-1] != j:
             return False
         g = got[:-1]
+        if target in ("_payload_", "_body_") and getattr(self, "len_semantics", False):
+            # the size is taken from the actual payload bytes at run time: only the modifier matters
+            self.size_reason = "payload-modifier"
+            if g[0] == "size" and g[1] == "_payload_":
+                return g[2] == mod
+            if g[0] == "len" and g[1] == "payload":
+                return g[3] == mod
+            return False
         if target in ("_payload_", "_body_"):
             if child_poly is None:
                 return False
@@ -174,9 +183,9 @@ class Cmp:
             if not self.order_ok(got_elem["n"], got_elem["order"]):
                 self.bad("byte-order", f"array `{name}`: element written in {got_elem['order']} order")
             for j, g in enumerate(got_elem["bits"]):
-                if g == 0 and self.always_zero(got_elem, ("elem", "optval"), name, j):
+                if g == 0 and self.always_zero(got_elem, ("elem", "optval", "f"), name, j):
                     continue
-                if not (isinstance(g, tuple) and g[0] in ("elem", "optval") and g[1] == name and g[-1] == j):
+                if not (isinstance(g, tuple) and g[0] in ("elem", "optval", "f") and g[1] == name and g[-1] == j):
                     self.bad("array-elem-bits", f"array `{name}`: element bit {j} carries {g}")
                     return
         else:
